@@ -149,7 +149,7 @@ func runConc(cfg Config) {
 		folder := filepath.Join(cfg.Data, fmt.Sprintf("c%d", i))
 		hub := decor.NewHub()
 		env := sopenv.New(folder, hub)
-		hub.Record = bf != nil && cc.Sched == "gate"
+		hub.Record = bf != nil && (cc.Sched == "gate" || os.Getenv("VERIF_BTRACE_FREE") != "")
 		r := &Runner{Env: env, Rec: &Recorder{}, MaxTime: time.Duration(envInt("VERIF_MAXTIME_MS", 30000)) * time.Millisecond, NoReset: true, OpGate: cc.Sched == "gate", Deadline: true, Budget: cc.Budget}
 		if _, err := r.RunTxn(ctx, "t0", &p, p.Txns[0], nil); err != nil {
 			r.Rec.Add(Ev{Ev: "HarnessError", Note: errs(err)})
